@@ -1,6 +1,7 @@
 package nom
 
 import (
+	"bytes"
 	"crypto/ed25519"
 	"encoding/hex"
 	"encoding/json"
@@ -288,6 +289,13 @@ func DeProtoAccountBlock(pb *AccountBlockProto) *AccountBlock {
 		ab.DescendantBlocks[index] = DeProtoAccountBlock(dBlockProto)
 	}
 	return ab
+}
+
+// SameBytes reports whether two blocks have the same serialization (the hash doesn't cover every field)
+func (ab *AccountBlock) SameBytes(other *AccountBlock) bool {
+	a, errA := ab.Serialize()
+	b, errB := other.Serialize()
+	return errA == nil && errB == nil && bytes.Equal(a, b)
 }
 func (ab *AccountBlock) Serialize() ([]byte, error) {
 	return proto.Marshal(ab.Proto())
